@@ -2,7 +2,8 @@
 From Coq Require Import List NArith ZArith String Bool.
 From DT Require Import GenStatus GenEvent GenMsgType FsmTypes GenFsm Fsm Machine View Caches Msg Node
      FsmFacts NodeFacts NodeKeyed.
-From DT Require C05Local.
+From DT Require C05Local C05Restart.
+From DT Require GenDecide DecideEq.
 Import ListNotations.
 
 (* whatever the input, sender and oracle answers: an input that names channel k (every message
@@ -53,3 +54,54 @@ Theorem C05_wrong_role_voucher_calls_only_read :
                                    snd (run (exec (IGet k)) s))).
 Proof. exact C05Local.wrong_role_voucher_calls_only_read. Qed.
 Print Assumptions C05_wrong_role_voucher_calls_only_read.
+
+(* who may restart a channel from outside.  A restart-existing-channel request that names a channel
+   this node did not initiate, or that does not come from that channel's counterparty, or whose
+   channel is terminated, is not honoured: the handler only reads the channel ... *)
+Theorem C05_restart_existing_unauthorised_only_reads :
+  forall s from m cs,
+    is_restart_existing m = true ->
+    lookup (g_restart m) (n_chans (s_node s)) = Some cs ->
+    C05Restart.may_restart_existing (n_self (s_node s)) from (m_chan (msync (cs_m cs))) = false ->
+    run (recv_restart_existing from m) s = run (C05Restart.only_read (g_restart m)) s.
+Proof. exact C05Restart.restart_existing_unauthorised_only_reads. Qed.
+Print Assumptions C05_restart_existing_unauthorised_only_reads.
+
+(* ... and one that names no existing channel (or is not a restart-existing request at all) does nothing *)
+Theorem C05_restart_existing_unknown_does_nothing :
+  forall s from m,
+    lookup (g_restart m) (n_chans (s_node s)) = None \/ is_restart_existing m = false ->
+    fst (run (recv_restart_existing from m) s) = ROk /\
+    s_out (snd (run (recv_restart_existing from m) s)) = s_out s /\
+    n_chans (s_node (snd (run (recv_restart_existing from m) s))) = n_chans (s_node s).
+Proof. exact C05Restart.restart_existing_unknown_only_reads. Qed.
+Print Assumptions C05_restart_existing_unknown_does_nothing.
+
+(* a restart request passes the manager's check exactly when it comes from the initiator of a
+   non-terminated channel and repeats the original base cid, voucher type and (non-empty) voucher *)
+Theorem C05_restart_request_check :
+  forall s from k m,
+    fst (run (validate_restart_request from k m) s) =
+    match lookup k (n_chans (s_node s)) with
+    | None => false
+    | Some cs => C05Restart.repeats_original from m (m_chan (msync (cs_m cs)))
+    end.
+Proof. exact C05Restart.restart_request_check. Qed.
+Print Assumptions C05_restart_request_check.
+
+(* a restart request that fails it is refused before anybody is asked: no validator call, event,
+   message or transport call; the reply is the error response (C02_refusal_reply's shape) *)
+Theorem C05_restart_request_failing_check_is_refused :
+  forall s k m,
+    fst (run (validate_restart_request (k_init k) k m) s) = false ->
+    let '(x, s') := run (restart_request k m) s in
+    x = (false, zero_valres, true) /\ s_out s' = s_out s /\ s_vals s' = s_vals s.
+Proof. exact C05Restart.restart_request_failing_check_is_refused. Qed.
+Print Assumptions C05_restart_request_failing_check_is_refused.
+
+(* who the other party is and which way the data flows (is_pull, other_peer) are the accessors of
+   the source: regenerated from channels/channel_state.go (IsPull, OtherPeer) on every run *)
+Theorem C05_party_views_are_the_sources :
+  forall c, GenDecide.gen_IsPull c = is_pull c /\ GenDecide.gen_OtherPeer c = other_peer c.
+Proof. exact DecideEq.party_views_are_source. Qed.
+Print Assumptions C05_party_views_are_the_sources.
